@@ -1,15 +1,15 @@
-SPECIFICATION Spec
+SPECIFICATION SimSpec
 CONSTANTS
-  Keys = {1}
-  Clients = {1, 2}
-  MaxSize = 3
+  Keys = {1, 2}
+  Clients = {1, 2, 3}
+  MaxSize = 4
   Costs = {1, 3}
   TTLs = {0}
   QCap = 2
   BatchMax = 2
-  MaxEnt = 2
-  MaxTime = 1
-  OpsPerClient = 2
+  MaxEnt = 9
+  MaxTime = 4
+  OpsPerClient = 3
   Allowed <- AllowAcct
   WithTicker = FALSE
   Thresh = 30
@@ -20,5 +20,9 @@ CONSTANTS
   FixD6 = TRUE
   FixD7 = TRUE
   FixD16 = TRUE
-VIEW view
-INVARIANTS TypeOK AcctInv NotifInv NotifComplete NoBadC06
+  Depth = 60
+  Gates <- GatesAll
+  Shift = 30
+  Start = 3
+  MaxTicks = 0
+CONSTRAINT Export
